@@ -121,6 +121,10 @@ fn run_case(seed: u64, idx: u64) -> CaseOut {
     let res = catch_unwind(AssertUnwindSafe(|| -> Result<(), Verdict> {
         pb.set_style(style);
         let (mut pos, mut len, mut msg, mut prefix) = (0u64, len0, String::new(), String::new());
+        // texts as they were handed over, and the tab width in force: what is shown is the text with its tabs
+        // expanded at that width
+        let (mut msg_raw, mut prefix_raw, mut tw) = (String::new(), String::new(), 8usize);
+        let expand = |s: &str, tw: usize| s.replace('\t', &" ".repeat(tw));
         let mut ticks = 0u64;
         let mut finished = false;
         let mut expected_resets = 0u64;
@@ -142,7 +146,30 @@ fn run_case(seed: u64, idx: u64) -> CaseOut {
             let before_ticks = track.lock().unwrap().ticks;
             spy.state().log = Some(Vec::new());
             let flushes_before = spy.flushes();
-            let op_result: Result<(), Verdict> = (|| { match rng.below(12) {
+            let op_result: Result<(), Verdict> = (|| { match rng.below(14) {
+                12 => {
+                    tw = *rng.pick(&[1usize, 2, 4, 8]);
+                    pb.set_tab_width(tw);
+                    history.push(format!("set_tab_width({tw})"));
+                }
+                13 => {
+                    msg_raw = format!("end\t{}", rng.range(0, 99));
+                    match rng.below(3) {
+                        0 => {
+                            pb.finish_with_message(msg_raw.clone());
+                            // (finishing moves the position to the end)
+                            if let Some(l) = len {
+                                pos = l;
+                            }
+                            history.push(format!("finish_with_message({msg_raw:?})"));
+                        }
+                        _ => {
+                            pb.abandon_with_message(msg_raw.clone());
+                            history.push(format!("abandon_with_message({msg_raw:?})"));
+                        }
+                    }
+                    finished = true;
+                }
                 0 | 1 => {
                     let d = if rng.chance(1, 6) { rng.u64_biased() } else { rng.range(0, 5000) };
                     pos = pos.wrapping_add(d);
@@ -168,14 +195,14 @@ fn run_case(seed: u64, idx: u64) -> CaseOut {
                     history.push("unset_length".into());
                 }
                 6 => {
-                    msg = format!("message {}", rng.range(0, 999));
-                    pb.set_message(msg.clone());
-                    history.push(format!("set_message({msg:?})"));
+                    msg_raw = if rng.chance(1, 3) { format!("mes\tsage {}", rng.range(0, 999)) } else { format!("message {}", rng.range(0, 999)) };
+                    pb.set_message(msg_raw.clone());
+                    history.push(format!("set_message({msg_raw:?})"));
                 }
                 7 => {
-                    prefix = format!("pfx{}", rng.range(0, 99));
-                    pb.set_prefix(prefix.clone());
-                    history.push(format!("set_prefix({prefix:?})"));
+                    prefix_raw = if rng.chance(1, 3) { format!("p\tfx{}", rng.range(0, 99)) } else { format!("pfx{}", rng.range(0, 99)) };
+                    pb.set_prefix(prefix_raw.clone());
+                    history.push(format!("set_prefix({prefix_raw:?})"));
                 }
                 8 | 9 => {
                     pb.tick();
@@ -218,6 +245,8 @@ fn run_case(seed: u64, idx: u64) -> CaseOut {
                 }
             } Ok(()) })();
             op_result?;
+            msg = expand(&msg_raw, tw);
+            prefix = expand(&prefix_raw, tw);
             // the frame painted by the operation itself: the custom key must already have been
             // ticked / reset together with the bar when that frame was rendered
             if spy.flushes() > flushes_before {
